@@ -25,6 +25,8 @@ class Tr:
         return ast.unparse(node)
 
     def typ(self, node: ast.AST) -> str:
+        if not isinstance(node, (ast.Name, ast.Attribute)) and self.key(node) in self.names:
+            return self.names[self.key(node)][1]     # a whole sub-expression named in the table
         if isinstance(node, (ast.Name, ast.Attribute)):
             k = self.key(node)
             if k in self.names:
@@ -63,6 +65,15 @@ class Tr:
     def prop(self, node: ast.AST) -> str:
         if isinstance(node, ast.Constant) and isinstance(node.value, bool):
             return 'True' if node.value else 'False'
+        if isinstance(node, (ast.Subscript, ast.Call, ast.Compare)) and self.key(node) in self.names:
+            # a sub-expression the table names as a whole (`self._recv_eof[datatype]`, `datatype in self._readers`,
+            # `any(self._send_eof.values())`, `super()._should_block_drain(datatype)`)
+            lean, ty = self.names[self.key(node)]
+            if ty == 'prop':
+                return lean
+            if ty != 'bool':
+                raise Untranslatable('not a boolean sub-expression: ' + self.key(node))
+            return '(%s = true)' % lean
         if isinstance(node, (ast.Name, ast.Attribute)):
             k = self.key(node)
             if k not in self.names:
@@ -180,11 +191,104 @@ def translate(ctx: Any) -> Dict[str, Any]:
     defs.append('/-- `if %s: raise IncompleteReadError` (SSHStreamSession.read) -/\n'
                 'def readIncompleteCode (n : Int) (exact : Bool) : Prop :=\n  %s' % (info['read.incomplete'], tr.prop(final[0].test)))
 
+    # readuntil: when does the call give up without a match (the `if` whose body raises IncompleteReadError after the
+    # scan loop, i.e. the one that is a direct child of the outer `while True`)
+    fn = _find(cls.body, 'readuntil')
+    outer = [n for n in ast.walk(fn) if isinstance(n, ast.While) and isinstance(n.test, ast.Constant) and n.test.value is True]
+    if len(outer) != 1:
+        raise Untranslatable('readuntil: expected exactly one `while True`')
+    giveup = [n for n in outer[0].body if isinstance(n, ast.If) and any(isinstance(x, ast.Raise) for x in n.body)]
+    if len(giveup) != 1:
+        raise Untranslatable('readuntil: expected exactly one give-up test in the outer loop')
+    tr = Tr({'self._read_paused': ('paused', 'bool'), 'buf': ('bufNonEmpty', 'bool'),
+             'self._eof_received': ('eof', 'bool')})
+    info['readuntil.give-up'] = ast.unparse(giveup[0].test)
+    defs.append('/-- `if %s: ... raise IncompleteReadError(buf)` (SSHStreamSession.readuntil, after the scan loop) -/\n'
+                'def untilGiveUpCode (paused bufNonEmpty eof : Bool) : Prop :=\n  %s'
+                % (info['readuntil.give-up'], tr.prop(giveup[0].test)))
+
+    # ---- asyncssh/process.py: SSHProcess ------------------------------------------------------------------------
+    ppath = os.path.join(vlib.REPO, 'asyncssh', 'process.py')
+    ptree = ast.parse(open(ppath).read())
+    pcls = _find(ptree.body, 'SSHProcess')
+
+    # the override of _should_block_drain every process session runs
+    fn = _find(pcls.body, '_should_block_drain')
+    rets = [n for n in ast.walk(fn) if isinstance(n, ast.Return)]
+    if len(rets) != 1 or rets[0].value is None:
+        raise Untranslatable('SSHProcess._should_block_drain: expected one return')
+    tr = Tr({'datatype in self._readers': ('readerActive', 'bool'),
+             'super()._should_block_drain(datatype)': ('(shouldBlockDrainCode writePaused connLost)', 'prop')})
+    info['SSHProcess._should_block_drain'] = ast.unparse(rets[0].value)
+    defs.append('/-- `return %s` (SSHProcess._should_block_drain, asyncssh/process.py) -/\n'
+                'def procShouldBlockDrainCode (readerActive writePaused connLost : Bool) : Prop :=\n  %s'
+                % (info['SSHProcess._should_block_drain'], tr.prop(rets[0].value)))
+
+    # connection_lost: are the drain waiters signalled (again) after the readers have been forgotten?
+    fn = _find(pcls.body, 'connection_lost')
+    cleared_at = None
+    woken_after = False
+    for i, st in enumerate(fn.body):
+        if isinstance(st, ast.Assign) and len(st.targets) == 1 and ast.unparse(st.targets[0]) == 'self._readers' and \
+                isinstance(st.value, ast.Dict) and not st.value.keys:
+            cleared_at = i
+        elif cleared_at is not None and any(isinstance(x, ast.Call) and ast.unparse(x.func) == 'self._unblock_drain'
+                                            for x in ast.walk(st)):
+            woken_after = True
+    if cleared_at is None:
+        raise Untranslatable('SSHProcess.connection_lost: expected `self._readers = {}`')
+    info['SSHProcess.connection_lost.unblocks-drain-after-clearing-readers'] = woken_after
+    defs.append('/-- SSHProcess.connection_lost calls `self._unblock_drain` after `self._readers = {}` (the call the base\n'
+                '    class makes comes while the readers are still registered, when `_should_block_drain` is still true) -/\n'
+                'def connLostUnblocksAfterReadersCleared : Bool := %s' % ('true' if woken_after else 'false'))
+
+    # feed_recv_buf: the test in front of `writer.write_eof()`
+    fn = _find(pcls.body, 'feed_recv_buf')
+    eofs = [n for n in ast.walk(fn) if isinstance(n, ast.If) and len(n.body) == 1 and
+            ast.unparse(n.body[0]) == 'writer.write_eof()']
+    if len(eofs) != 1:
+        raise Untranslatable('feed_recv_buf: expected exactly one `if ...: writer.write_eof()`')
+    tr = Tr({'self._eof_received': ('eofSeen', 'bool'), 'self._recv_eof[datatype]': ('recvEof', 'bool')})
+    info['feed_recv_buf.eof'] = ast.unparse(eofs[0].test)
+    defs.append('/-- `if %s: writer.write_eof()` (SSHProcess.feed_recv_buf) -/\n'
+                'def feedRecvBufEofCode (eofSeen recvEof : Bool) : Prop :=\n  %s'
+                % (info['feed_recv_buf.eof'], tr.prop(eofs[0].test)))
+
+    # feed_eof: the test in front of `self._chan.write_eof()`, and whether the ending reader is cleared before it
+    fn = _find(pcls.body, 'feed_eof')
+    weofs = [(i, n) for i, n in enumerate(fn.body) if isinstance(n, ast.If) and
+             any(isinstance(x, ast.Call) and ast.unparse(x.func) == 'self._chan.write_eof' for x in ast.walk(n))]
+    if len(weofs) != 1:
+        raise Untranslatable('feed_eof: expected exactly one top-level `if ...: self._chan.write_eof()`')
+    wi, wif = weofs[0]
+    clears = [i for i, n in enumerate(fn.body) if any(isinstance(x, ast.Call) and
+              ast.unparse(x.func) == 'self.clear_reader' for x in ast.walk(n))]
+    if len(clears) != 1:
+        raise Untranslatable('feed_eof: expected exactly one call of clear_reader')
+    cleared_first = clears[0] < wi
+    # `send_eof` must be the flag of the ending reader, read before it is cleared
+    flag = [n for n in fn.body[:wi] if isinstance(n, ast.Assign) and len(n.targets) == 1 and
+            ast.unparse(n.targets[0]) == 'send_eof' and ast.unparse(n.value) == 'self._send_eof[datatype]']
+    names = {'self._send_eof[datatype]': ('sendEof', 'bool'),
+             'any(self._send_eof.values())': ('othersWantEof' if cleared_first else 'anyWantsEof', 'bool')}
+    if flag:
+        names['send_eof'] = ('sendEof', 'bool')
+    tr = Tr(names)
+    info['feed_eof.send'] = ast.unparse(wif.test)
+    info['feed_eof.reader-cleared-before-test'] = cleared_first
+    defs.append('/-- `if %s: self._chan.write_eof()` (SSHProcess.feed_eof); `othersWantEof` = `any(self._send_eof.values())`\n'
+                '    evaluated after the ending reader was cleared -/\n'
+                'def feedEofSendCode (sendEof othersWantEof : Bool) : Prop :=\n  %s'
+                % (info['feed_eof.send'], tr.prop(wif.test)))
+    defs.append('/-- in SSHProcess.feed_eof `self.clear_reader(datatype)` comes before the test above (so that\n'
+                '    `any(self._send_eof.values())` ranges over the OTHER sources only) -/\n'
+                'def feedEofClearsReaderFirst : Bool := %s' % ('true' if cleared_first else 'false'))
+
     text = ('/- GENERATED by harness/props/_c19_translate.py from %s — do not edit.\n'
-            '   Expressions of asyncssh/stream.py translated from the Python AST; Props/C19.lean proves that the model\'s\n'
+            '   Expressions of asyncssh/stream.py and process.py translated from the Python AST; Props/C19.lean proves that the model\'s\n'
             '   hand-written definitions agree with them. -/\n'
             'namespace AsyncsshModel.Gen.C19\n\n%s\n\nend AsyncsshModel.Gen.C19\n'
-            % ('asyncssh/stream.py', '\n\n'.join(defs)))
+            % ('asyncssh/stream.py and asyncssh/process.py', '\n\n'.join(defs)))
     changed = vlib.write_if_changed(os.path.join(vlib.LEAN_DIR, 'AsyncsshModel', 'Gen', 'C19.lean'), text)
     info['regenerated'] = changed
     return info
